@@ -75,6 +75,14 @@ def harnesses(tier):
                    nobody_ok='*', ignore_failed=['no-body'], unwind=12, unwindset=['d_string_append.0:230', 'd_string_append_c_array.0:230', 'd_string_append_printf.0:80', 'd_string_append_printf.2:40'], timeout=600, mem_gb=6, functional=True, replay=False,
                    bounds='link / image x destination present or absent x title x width/height attributes (hostile values) x figure/inline x stored asset or not',
                    desc='mmd_export_link_opendocument / mmd_export_image_opendocument: balanced XML for every link record shape; attribute values only through the escaper'))
+    for op, nm in enumerate(['link_attributes', 'image_alt_and_attributes', 'fence_info_string', 'citation_locator']):
+        hs.append(dict(name='c08_html_raw_' + nm, src='c08/htmltaint.c', defs=dict(OP=op, DS_SINK_PTR=1, DS_SINK_TARGET=1), pool_off=True,
+                       units=[dict(src='repo:html.c', cflags=['-include', 'vh_libc.h', '-Dfree=verif_free'], remove=['mmd_print_string_html', 'mmd_print_char_html', 'mmd_export_token_tree_html', 'mmd_export_token_tree_html_raw']),
+                              dict(src='repo:writer.c', cflags=['-include', 'vh_libc.h'], remove=['label_from_token', 'get_fence_language_specifier', 'raw_filter_text_matches', 'text_inside_pair', 'label_from_string', 'citation_from_bracket', 'pad', 'store_asset']),
+                              'repo:token.c', 'repo:stack.c', 'repo:object_pool.c', 'repo:char.c', 'common/ds_sink.c'],
+                       nobody_ok='*', ignore_failed=['no-body'], unwind=12, unwindset=['d_string_append.0:230', 'd_string_append_c_array.0:230', 'd_string_append_printf.0:120', 'd_string_append_printf.1:40', 'd_string_append_printf.2:300', 'vh_strlen.0:60', 'vh_strcmp.0:60'], timeout=600, mem_gb=6, functional=True, replay=False,
+                       bounds='one %s; strings of 3 arbitrary bytes tracked by identity; all extension words' % nm.replace('_', ' '),
+                       desc='html.c: %s reach(es) the output only through the escaper' % nm.replace('_', ' ')))
     hs.append(dict(name='c08_html_head', src='c08/htmlhead.c', defs=dict(DS_SINK_PTR=1), pool_off=True,
                    units=[dict(src='repo:html.c', cflags=['-include', 'verif_uthash.h', '-include', 'vh_libc.h'], remove=['mmd_print_string_html']), 'common/ds_sink.c'],
                    nobody_ok='*', ignore_failed=['no-body'], unwind=20, unwindset=['d_string_append.0:230', 'd_string_append_c_array.0:230', 'd_string_append_printf.0:120'], timeout=600, mem_gb=4, functional=True, replay=False,
